@@ -94,6 +94,36 @@ _PREDEFINED_GATE_SIGNATURES = {
 }
 
 
+def _check_expr(expr, params=()):
+    """
+    Check that a QASM parameter expression is built from numbers, ``pi``,
+    the given parameter names, ``+ - * /`` and parentheses only.
+    The power operator and function calls are not supported.
+    """
+    if "^" in expr or "**" in expr:
+        raise NotImplementedError(
+            "QASM: the power operator is not supported in expressions."
+        )
+    for var, call in re.findall(r"(?<![\w.])([A-Za-z_]\w*)\s*(\(?)", expr):
+        if call:
+            raise NotImplementedError(
+                "QASM: functions are not supported in expressions."
+            )
+        if var != "pi" and var not in params:
+            raise ValueError(
+                "QASM: unknown identifier {} in an expression.".format(var)
+            )
+
+
+def _eval_expr(expr):
+    """
+    Evaluate a QASM parameter expression without free parameters.
+    """
+    expr = str(expr)
+    _check_expr(expr)
+    return eval(expr, {"__builtins__": {}}, {"pi": np.pi})
+
+
 def _tokenize_line(command):
     """
     Tokenize (break into several parts a string of) a single line of QASM code.
@@ -382,6 +412,8 @@ class QasmProcessor:
                                 name, curr_gate.name
                             )
                         )
+                    for gate_arg in gate_args:
+                        _check_expr(gate_arg, curr_gate.gate_args)
                     curr_gate.gates_inside.append([name, gate_args, gate_regs])
                 elif command[0] == "barrier":
                     continue
@@ -458,7 +490,7 @@ class QasmProcessor:
 
         # maps variables to supplied arguments, registers
         for i, arg in enumerate(gate.gate_args):
-            args_map[arg] = eval(str(args[i]))
+            args_map[arg] = _eval_expr(args[i])
         for i, reg in enumerate(gate.gate_regs):
             regs_map[reg] = regs[i]
         # process all the constituent gates with supplied arguments, registers
@@ -476,7 +508,7 @@ class QasmProcessor:
                     command.replace(reg.strip(), str(real_reg))
                     for command in com_regs
                 ]
-            com_args = [eval(arg) for arg in com_args]
+            com_args = [_eval_expr(arg) for arg in com_args]
 
             if name in self.predefined_gates:
                 qc_temp.user_gates = _get_qiskit_gates()
@@ -895,7 +927,7 @@ class QasmProcessor:
 
         # adds gate to the QubitCircuit
         if command[0] in self.predefined_gates:
-            args = [eval(arg) for arg in args]
+            args = [_eval_expr(arg) for arg in args]
         for regs in reg_set:
             regs = [int(i) for i in regs]
             if command[0] in self.predefined_gates:
